@@ -10,7 +10,8 @@ writes - raise after a prefix of the data was delivered, for every prefix length
 again with that single fault.  Besides the unbuffered stdout (write() delivers at once) the buffered
 disciplines of world.VStdout are enumerated: "full" (data reaches the terminal at flush(); a fault during
 that hand-over delivers any prefix of everything pending) and "line" (a write with a newline hands over).
-Configurations include images / renderables whose current frame is not 0 (tell() must survive).
+Configurations include images / renderables whose current frame is not 0 (tell() must survive) and
+two-draw histories inside one execution (draw, the tty attributes change, judged draw).
 
 "Before its own clean-up starts" is decided on the payloads of the fault-free run: clean-up is the
 maximal trailing run of calls that only emit restoring sequences (newline, cursor-down, SGR reset,
@@ -173,6 +174,7 @@ def sig_base(case, b, j, fault):
     prefix length), and the style / terminal (old API) or renderable class / tty settings (new API)."""
     animation = case["frames"] > 1 and case.get("animate", True)
     d = dict(api=case["api"], animated=bool(animation), exc=fault["exc"], mode=fault["mode"],
+             history="+".join(st["op"] for st in case.get("pre") or ()) or None,
              kind=b.points[j][1], setup=j < b.first_render, buffering=case.get("buffering", "none"))
     if case["api"] == "old":
         d.update(style=case["style"], ident=case.get("ident", "other"))
@@ -336,6 +338,19 @@ def build_configs(tier):
         cfgs.append(dict(api="old", style=style, ident=ident, method=method, frames=2, repeat=1, cached=False,
                          size=(1, 1), fmt=(None, 1, None, 1), term=term, row0=1, isatty=True, src="file", seek=1,
                          animate=False))
+    # ---- histories inside one execution: a first fault-free draw, then the tty attributes change (the
+    # application switches to raw / no-echo input), then the judged draw: the attributes in effect before
+    # THAT call are the ones to restore
+    for (cls, mode), frames in itertools.product(news, (1, 2)):
+        for pre, hide in (([dict(op="draw"), dict(op="attrs", set="raw")], True),
+                          ([dict(op="draw"), dict(op="attrs", set="noecho")], False),
+                          ([dict(op="attrs", set="raw"), dict(op="draw", kw=dict(echo_input=True)),
+                            dict(op="attrs", set="cooked")], True)):
+            if quick and cls == "TextR" and pre[-1]["set"] != "raw":
+                continue
+            cfgs.append(dict(api="new", cls=cls, mode=mode, frames=frames, loops=1, cache=False,
+                             size=(1, 1) if quick and cls == "TextR" else (2, 2), pad=("exact", 0, 0, 0, 0, " "),
+                             term=term, row0=1, isatty=True, hide_cursor=hide, echo_input=False, pre=pre))
     # ---- buffered stdout (what sys.stdout really is): data reaches the terminal at flush(); a fault during
     # that hand-over delivers any prefix of everything pending
     for (cls, mode), frames in itertools.product(news, (1, 2)):
